@@ -361,6 +361,91 @@ func cmdCLI(args []string) {
 			classes[fmt.Sprintf("%s|%s|%s|%s|%s|%d", s.Fmt, s.Chan, s.Sel, s.Cfg, s.Mode, len(s.Inputs))+"|"+outcome] = true
 		}
 	}
+	// ---- PEM input holding several blocks (a leaf followed by its issuer, a certificate followed by a CRL): the first block is
+	// a parseable certificate, so its results must be what the tool reports first - through a file, through standard input,
+	// as a result object and as a summary.  (Whether more is printed for the further blocks is not promised: fidelity.)
+	nb := 6
+	if tier == "thorough" {
+		nb = 40
+	}
+	for k := 0; k < nb; k++ {
+		a, b := c.Certs[(k*53+int(seed)*7)%len(c.Certs)], c.Certs[(k*101+int(seed)*11+1)%len(c.Certs)]
+		second, secondKind := pemEncode("CERTIFICATE", b.DER), "cert"
+		if k%3 == 2 {
+			second, secondKind = pemEncode("X509 CRL", c.CRLs[k%len(c.CRLs)].DER), "crl"
+		}
+		bundle := append(append([]byte{}, pemEncode("CERTIFICATE", a.DER)...), second...)
+		g.SetConfiguration(lint.NewEmptyConfig())
+		rs, _, _ := runSet(fromObj(a), g)
+		if rs == nil {
+			continue
+		}
+		lb, _ := json.Marshal(rs.Results)
+		var want map[string]interface{}
+		json.Unmarshal(lb, &want)
+		sts := []int{}
+		for _, r := range rs.Results {
+			sts = append(sts, int(r.Status))
+		}
+		sort.Ints(sts)
+		for _, how := range []string{"file", "stdin", "file-summary"} {
+			args := []string{"-format", "pem"}
+			var stdin []byte
+			if how == "stdin" {
+				stdin = bundle
+			} else {
+				p := filepath.Join(work, fmt.Sprintf("bundle_%d.pem", k))
+				os.WriteFile(p, bundle, 0o644)
+				if how == "file-summary" {
+					args = append(args, "-summary")
+				}
+				args = append(args, p)
+			}
+			cmd := exec.Command(cli, args...)
+			if stdin != nil {
+				cmd.Stdin = bytes.NewReader(stdin)
+			}
+			var so, se bytes.Buffer
+			cmd.Stdout, cmd.Stderr = &so, &se
+			err := cmd.Run()
+			launches++
+			e := ev.M{"ev": "CLIBundle", "how": how, "second": secondKind, "exitObs": 0, "printedObs": 0, "firstMatches": false, "tables": []ev.M{}, "libSts": [][]int{sts},
+				"objects": []string{a.ID, b.ID}, "stderr": firstLine(se.String())}
+			if err != nil {
+				e["exitObs"] = 1
+			}
+			if how == "file-summary" {
+				tbs := parseTables(so.String())
+				e["printedObs"] = len(tbs)
+				if len(tbs) > 0 {
+					tb := tbs[0]
+					nl := make([]int, len(tb.names))
+					lv, cn := tb.levels, tb.counts
+					if lv == nil {
+						lv, cn = []string{}, []int{}
+					}
+					e["tables"] = []ev.M{{"input": 1, "long": false, "levels": lv, "counts": cn, "nlines": nl, "namesOK": true}}
+					e["firstMatches"] = true // judged through the table
+				}
+			} else {
+				dec := json.NewDecoder(bytes.NewReader(so.Bytes()))
+				n := 0
+				for {
+					var v map[string]interface{}
+					if dec.Decode(&v) != nil {
+						break
+					}
+					if n == 0 {
+						e["firstMatches"] = reflect.DeepEqual(v, want)
+					}
+					n++
+				}
+				e["printedObs"] = n
+			}
+			w.Emit(e)
+			classes["bundle|"+how+"|"+secondKind] = true
+		}
+	}
 	w.Close()
 	os.RemoveAll(work)
 	ev.WriteJSON(out("summary.json"), ev.M{"scenarios": len(scns), "launches": launches, "classes": len(classes), "sample": scns[len(scns)/2]})
